@@ -1,6 +1,6 @@
 """C30 - compilation is deterministic.
 
-case = {"units": [unit, unit, unit], "stages": [stage, ...] (optional: report only divergences starting at these stages)}
+case = {"units": [unit, ...] (five when generated), "stages": [stage, ...] (optional: report only divergences starting at these stages)}
 unit = {"kind": "c", "src": C text, "target", "level", "opt"} | {"kind": "ir", "desc": genir description, "target", "level", "opt"}
 
 The units are compiled in six worker processes (vf/c30_worker.py, started with an explicit environment) that differ in
@@ -27,12 +27,12 @@ from . import c29
 
 PID = "C30"
 RULE = (
-    "Hypothesis draws 3 units, each = (vf/gencc C program [65%] | vf/genir module restricted as in C29 [35%]) x target "
+    "Hypothesis draws 5 units, each = (vf/gencc C program [65%] | vf/genir module restricted as in C29 [35%]) x target "
     "(x86_64, arm, arm:thumb, riscv, riscv:rvc) x level (0,1,2,s) x opt (speed,size). "
-    "The 3 units are compiled in 6 separately started /venv/bin/python processes: PYTHONHASHSEED 0 / 0 / 1 / 0 / 2 / random, "
+    "The 5 units are compiled in 6 separately started /venv/bin/python processes: PYTHONHASHSEED 0 / 0 / 1 / 0 / 2 / random, "
     "without / with / without / without / with / with address-space randomisation (setarch -R), the 4th and 5th in reverse "
-    "unit order (unit 1 is compiled first in a fresh process in four configurations and after two unrelated modules in two; "
-    "unit 3 the other way round).  Each process reports per unit the IR text after optimize, the instruction list after selection and after "
+    "unit order (unit 1 is compiled first in a fresh process in four configurations and after four unrelated modules in two; "
+    "unit 5 the other way round).  Each process reports per unit the IR text after optimize, the instruction list after selection and after "
     "register allocation (wrapped CodeGenerator methods), ObjectFile.save() text and the image bytes of a final link with a "
     "fixed layout.  Failure = object text or image bytes differ between two processes (or one process raises and another "
     "does not); every differing pair is attributed to its first diverging stage (names of IR values / virtual registers "
@@ -65,7 +65,9 @@ CONFIGS = [
     {"name": "seed2+aslr+reversed", "hashseed": "2", "aslr": True, "reverse": True},
     {"name": "random+aslr", "hashseed": "random", "aslr": True, "reverse": False},
 ]
-TIMEOUT_S = 600
+TIMEOUT_S = 900
+UNITS_PER_CASE = 5  # process start-up (imports + construction of all architectures: 4-5 CPU-s) dominates: amortised over five units
+UNITS_PER_CASE_THOROUGH = 12
 
 # open findings: first diverging stage -> id (all five targets share the target-independent code generator)
 FINDINGS = {"selected": "C30-KF1", "allocated": "C30-KF2"}
@@ -287,14 +289,14 @@ def unit_strategy(small=False):
 
 
 @st.composite
-def case_strategy(draw):
-    return {"units": [draw(unit_strategy()) for _ in range(3)]}
+def case_strategy(draw, k=UNITS_PER_CASE):
+    return {"units": [draw(unit_strategy()) for _ in range(k)]}
 
 
 _SIMPLEST = []
 
 
-def simplest_case():
+def simplest_case(k=UNITS_PER_CASE):
     """Hypothesis starts every run with the minimal example of the strategy; it is the same in all 16 workers and is
     evaluated by the first one only"""
     if not _SIMPLEST:
@@ -304,7 +306,7 @@ def simplest_case():
 
         @seed(0)
         @settings(max_examples=1, database=None, deadline=None, suppress_health_check=list(HealthCheck), phases=[Phase.generate])
-        @given(case_strategy())
+        @given(case_strategy(k))
         def t(case):
             got.append(case)
 
@@ -314,12 +316,12 @@ def simplest_case():
 
 
 def _worker(arg):
-    seed, n, index = arg
+    seed, n, k = arg
     stats = Stats()
 
     def prop(case):
-        if index > 0 and case == simplest_case():
-            raise Discard("minimal first example of the strategy (evaluated by worker 0)")
+        if case == simplest_case(k):
+            raise Discard("minimal first example of the strategy (five copies of the minimal unit)")
         case = {"units": [u for u in case["units"] if not u.get("unrepairable")]}
         if not case["units"]:
             raise Discard("generated modules need a class no front end emits")
@@ -343,7 +345,7 @@ def _worker(arg):
         return msg
 
     try:
-        fails = hyp_search(case_strategy(), prop, n, seed, stats, classify=classify, shrink=False)
+        fails = hyp_search(case_strategy(k), prop, n, seed, stats, classify=classify, shrink=False)
     finally:
         cleanup()
     return stats, fails
@@ -355,9 +357,10 @@ def run(ctx):
         return
     os.environ["C30_PYC"] = os.path.join(ctx.tmpdir(), "pyc")
     os.makedirs(os.environ["C30_PYC"], exist_ok=True)
-    n = ctx.scale(48, 3200)
+    n = ctx.scale(32, 640)
+    k = ctx.scale(UNITS_PER_CASE, UNITS_PER_CASE_THOROUGH)
     try:
-        ctx.pmap(_worker, [(subseed(ctx.seed, PID, w), n // 16, w) for w in range(16)])
+        ctx.pmap(_worker, [(subseed(ctx.seed, PID, w), n // 16, k) for w in range(16)])
     finally:
         del os.environ["C30_PYC"]
     ctx.extra["configurations"] = CONFIGS
